@@ -29,4 +29,14 @@ def pyMaxBy {β κ : Type} [LT κ] [DecidableLT κ] (key : β → κ) : List β 
   | [] => none
   | p :: t => some (t.foldl (fun a q => if key a < key q then q else a) p)
 
+/-- the positions at which a Boolean mask is `True`, increasing: what `A[mask]` selects -/
+def maskIdx (mask : List Bool) : List Nat := (List.range mask.length).filter fun v => mask.getD v false
+
+/-- exceptions of Python builtins for which the model of a property has no error value of its own (the generated
+    definition can raise them syntactically; the obligation shows that it does not under the stated hypotheses) -/
+inductive PyErr where
+  | indexError
+  | valueError
+  deriving DecidableEq, Repr
+
 end PersimVerif.SrcLib
